@@ -1,4 +1,4 @@
-CONSTANTS Keys = {"k1","k2"}  Vals = {1,2}  Ttls = {1}  MaxT = 4  MaxCp = 1  MaxOps = 8  MaxIds = 3  UniqueIds = TRUE
+CONSTANTS Keys = {"k1","k2"}  Vals = {1,2}  Ttls = {1}  MaxT = 4  MaxCp = 1  MaxOps = 8  MaxIds = 3  DefTtl = 0  UniqueIds = TRUE
 INIT Init
 NEXT NextSteps
 CONSTRAINT Bound
